@@ -57,7 +57,7 @@ def run(ctx):
     # prover runs release code
     hb = ctx.build_harness("c02", "release")
     if hb and drv:
-        n = 45 if quick else 600
+        n = 24 if quick else 150   # base proofs; ~19 case lines each; the extracted Z arithmetic costs ~0.1-0.5 s per verify line
         rc, out, _ = vcheck.sh([hb, "corr", str(ctx.seed), str(n)], timeout=900)
         lines = [l for l in out.split("\n") if " => " in l]
         kinds = {}
@@ -113,6 +113,7 @@ def run(ctx):
             elif line.startswith("evaluations="):
                 seen = True
                 ctx.evaluations += int(line.split()[0].split("=")[1])
+                ctx.notes["oracle_crosschecked_with_Trace_validate"] = int(line.split()[2].split("=")[1]) if len(line.split()) > 2 else 0
         ctx.notes["falsifier_classes"] = classes
         ctx.notes["falsifier"] = {"budget": budget, "failures": nfail, "profile": "release"}
         ctx.ob("falsifier-ran:release", seen, f"rc={rc}: {out[-300:]}")
@@ -142,10 +143,13 @@ def run(ctx):
         "root_factor, roots_bound(+degree form), agree_bound, divides_zpoly_iff; valid_b_spec; invalid_transition_not_divisible, "
         "invalid_assertion_not_divisible (all three assertion kinds via asserted_roots_bnd), valid_iff_divisible, invalid_trace_not_divisible; "
         "exempt_corruption_harmless; trans_divisor_eval_spec ((x^n-1)/prod(x-e) = vanishing polynomial of the enforced steps, via "
-        "xn_minus_one_factors); verify_accept_implies, verify_accept_iff, deep_evaluations_nth, deep_trace_at_spec; ood_reduce_is_evaluation, "
-        "ood_counting_partial; ali_counting_partial (subspace) and ali_fiber_unique_partial (one good coefficient per line); "
-        "seed_binds_statement (+ its hypothesis for f64/f62/f128), flat_avals_inj; non-vacuity Examples over the 64-bit field")
+        "xn_minus_one_factors) and bnd_divisor_eval_spec / bnd_divisor_eval_single (x^m - g^(a m) = vanishing polynomial of the named steps); "
+        "verify_accept_implies, verify_accept_iff, deep_evaluations_nth, deep_trace_at_spec, accept_gives_polynomial_relation; "
+        "ood_reduce_is_evaluation, ood_counting_partial; ali_counting (at most |F|^(k-1) good coefficient vectors, for fixed polynomials), "
+        "ali_counting_partial (subspace) and ali_fiber_unique_partial (one good coefficient per line); seed_binds_statement (+ its hypothesis "
+        "for f64/f62/f128), flat_avals_inj; non-vacuity Examples over the 64-bit field (incl. an accepting and a rejecting run of verify_model)")
     ctx.notes["not_proved"] = (
-        "the probabilistic soundness bound (statement kept as a comment in coq/Props/C02.v); cardinality form |good| <= |F|^(k-1) of the ALI "
-        "lemma; that the prover's numerators satisfy HN/HB; boundary divisor evaluation code x^m - g^(a m) = prod over the named steps "
-        "(C16); auxiliary segment / extension fields in the model")
+        "the probabilistic soundness bound (statement kept as a comment in coq/Props/C02.v): no proximity-gap / list-decoding / random-oracle "
+        "argument; the counting lemmas are for FIXED polynomials (divisibility), not for closeness to low-degree polynomials; that the prover's "
+        "numerators satisfy HN/HB (C09/C17/C20); boundary terms of accept_gives_polynomial_relation are kept in evaluation form; auxiliary "
+        "segment / extension fields in the executable model (falsifier only)")
